@@ -29,6 +29,10 @@ func (t *timeline) add(e string) {
 }
 
 func runSoak(r *rand.Rand) {
+	runCase(r, soakCase)
+}
+
+func soakCase(r *rand.Rand) {
 	seed := r.Int63()
 	tl := &timeline{}
 	var mu sync.Mutex // protects sr and the script state
@@ -234,7 +238,10 @@ func runSoak(r *rand.Rand) {
 		tl.add("CR0")
 	case <-time.After(watchdog):
 		res = "HANG:Close"
+		noteHang("soak: Close")
+		mu.Lock()
 		feats["hang"] = true
+		mu.Unlock()
 	}
 	done := make(chan struct{})
 	go func() { wg.Wait(); close(done) }()
@@ -242,7 +249,10 @@ func runSoak(r *rand.Rand) {
 	case <-done:
 	case <-time.After(watchdog):
 		res = "HANG:Next-after-Close"
+		noteHang("soak: Next after Close")
+		mu.Lock()
 		feats["hang"] = true
+		mu.Unlock()
 	}
 	mu.Lock()
 	if cHeld != "" && !cLeft {
@@ -251,10 +261,11 @@ func runSoak(r *rand.Rand) {
 			feats["offer-abort-rb"] = true
 		}
 	}
+	feats["consumers="+hx(consumers)] = true
+	fs := featStr(feats)
 	mu.Unlock()
 	tl.mu.Lock()
 	args := strings.Join(tl.evs, " ")
 	tl.mu.Unlock()
-	feats["consumers="+hx(consumers)] = true
-	emit("soak", args, res, featStr(feats))
+	emit("soak", args, res, fs)
 }
